@@ -2,7 +2,7 @@
    visitor configurations what the real `duke::read_class_multi` delivered to the harness'
    recording visitors and where the stream stood after every read.  The model reads the same
    bytes with the generated tables. *)
-From FB Require Export C17.Model C17.AttrTable Base.Run.
+From FB Require Export C17.Model C17.AttrTable C17.Struct Base.Run.
 
 (* ---------- compact notation for the case files ----------
    Coq parses a numeral of type N through its number notation (slow: ~0.1 ms each), but a
@@ -181,5 +181,8 @@ Definition check (c : case) : bool :=
   match c with
   | CStream total words runs =>
       let s := unpack (N.to_nat total) words in
-      Nat.eqb (length s) (N.to_nat total) && forallb (fun r => answer_eqb (model_reads (N.to_nat total) (fst r) s) (snd r)) runs
+      Nat.eqb (length s) (N.to_nat total)
+      (* the stream lies in the domain of the theorems: a sequence of encodings of well-formed class structures *)
+      && stream_wf tables 8 s
+      && forallb (fun r => answer_eqb (model_reads (N.to_nat total) (fst r) s) (snd r)) runs
   end.
